@@ -69,24 +69,20 @@ func (c *Cluster) verifC32ReadBatchRaw(pd *partData, segIdx int, meta *batchMeta
 func (c *Cluster) verifC32CheckReqVersion(key, version int16) error { return nil }
 
 // verifC32Offset: a base offset. Quick tier: below 2^16 (keeps the solver's 64-bit adders
-// shallow); thorough: below 2^60.
+// shallow); thorough: below 2^31.
 func verifC32Offset(name string) int64 {
 	if !verifThorough() {
 		return int64(verifNondetUint16(name))
 	}
-	v := verifNondetInt64(name)
-	verifAssume(verifAnd(v >= 0, v < verifC32MaxOffset))
-	return v
+	return int64(verifNondetUint32(name) >> 1)
 }
 
-// verifC32Count32: a record count >= 1 (quick: <= 1024, thorough: <= 2^20).
+// verifC32Count32: a record count >= 1 (quick: <= 1024, thorough: <= 2^16).
 func verifC32Count32(name string) int32 {
 	if !verifThorough() {
 		return int32(verifNondetUint16(name)&1023) + 1
 	}
-	v := verifNondetInt32(name)
-	verifAssume(verifAnd(v >= 1, v <= 1<<20))
-	return v
+	return int32(verifNondetUint16(name)) + 1
 }
 
 func verifC32Min(a, b int64) int64 { return verifIteInt64(a < b, a, b) }
@@ -189,7 +185,10 @@ func verifC32LSOOK(pd *partData) bool {
 	return verifAnd(below, verifAnd(pd.lastStableOffset == want, pd.lastStableOffset <= pd.highWatermark))
 }
 
-func verifC32NBatches() int {
+func verifC32NBatches() int { return 2 }
+
+// fetch walks more batches in the thorough tier
+func verifC32NFetchBatches() int {
 	if verifThorough() {
 		return 3
 	}
@@ -466,7 +465,7 @@ func VerifC32_fetchVisibility() { verifC32Fetch(false) }
 func VerifC32_fetchAbortedList() { verifC32Fetch(true) }
 
 func verifC32Fetch(abortedPart bool) {
-	n := verifConcretize(verifRange("nbatches", 0, verifC32NBatches()))
+	n := verifConcretize(verifRange("nbatches", 0, verifC32NFetchBatches()))
 	st := verifC32Batches(n)
 	pd := st.pd
 	// LSO per I32 without materialising the table (fetch never reads it)
@@ -480,10 +479,7 @@ func verifC32Fetch(abortedPart bool) {
 	}
 	c, creq, req := verifC32FetchCluster(st)
 
-	req.Version = 4 // 4..6: no fetch sessions
-	if verifThorough() {
-		req.Version += int16(verifChoose(3))
-	}
+	req.Version = 4 // sessionless; v5/v6 only add response fields
 	req.MaxWaitMillis = 0
 	req.MinBytes = 0
 	req.MaxBytes = verifNondetInt32("req.maxBytes")
